@@ -297,6 +297,10 @@ macro_rules! c11_history {
 c11_history!(c11_history_mutex_d2, mk_handler_m, 2, 4, vr::ring_id_mutex);
 // @harness props=C11 tier=thorough reach=off timeout=3000 mem=50 bound="as c11_history_mutex_d2 with histories of length 3" stubs="Epoll::ctl, EventConsumer::consume, EventNotifier::notify, close/OwnedFd::drop"
 c11_history!(c11_history_mutex_d3, mk_handler_m, 3, 5, vr::ring_id_mutex);
+// @harness props=C11 tier=thorough reach=off timeout=3000 mem=50 bound="as c11_history_mutex_d2 with histories of length 4" stubs="Epoll::ctl, EventConsumer::consume, EventNotifier::notify, close/OwnedFd::drop, Mutex::lock/RwLock (try_lock)"
+c11_history!(c11_history_mutex_d4, mk_handler_m, 4, 6, vr::ring_id_mutex);
+// @harness props=C11 tier=thorough reach=off timeout=3000 mem=50 bound="as c11_history_mutex_d2 over RwLock-backed rings (histories of length 2)" stubs="Epoll::ctl, EventConsumer::consume, EventNotifier::notify, close/OwnedFd::drop, Mutex::lock/RwLock (try_lock)"
+c11_history!(c11_history_rw_d2, mk_handler_r, 2, 4, vr::ring_id_rwlock);
 
 // ---- C11 as an inductive step: from every reachable per-ring state, one control message / kick / worker
 // turn preserves "kick descriptor in the worker's interest list <=> ring started and enabled" and
